@@ -89,8 +89,6 @@ Lemma wire_main c s o s1 ev cl q k m :
 Proof.
   intros M. destruct o; unfold_handlers M; cbn [send_sink].
   all: try (split_all; nowire).
-  - match type of M with context [finish_tasks ?a ?b] => destruct (finish_tasks a b) as [[l' e'] n'] end.
-    split_all. nowire.
   - injection M as <- <- <-. unfold handle_send. destruct (hsink s p) as [k0|]; [|nowire].
     intros H. destruct (sink_send_wire _ _ _ _ _ _ _ _ H) as (-> & -> & R & T). eauto.
   - injection M as <- <- <-. unfold handle_send. destruct (hsink s p) as [k0|]; [|nowire].
